@@ -258,6 +258,7 @@ fn check_modules(case: &BuildCase, graph: &ModuleGraph, o: &mut Outcome) {
 fn check_entries(case: &BuildCase, graph: &ModuleGraph, o: &mut Outcome) {
   let world = &case.world;
   let entries = obs::entries(graph, false);
+  let json_targets = crate::world::json_class_targets(world);
   for (s, state) in &entries {
     let scheme = s.split(':').next().unwrap_or("");
     let expected: Vec<&str> = match scheme {
@@ -297,6 +298,20 @@ fn check_entries(case: &BuildCase, graph: &ModuleGraph, o: &mut Outcome) {
           v
         }
       },
+    };
+    // every request of this target carries `type: "json"` (one class per
+    // target by construction, through redirects too): JSON is then a module
+    // in every context, anything else is rejected as not being JSON
+    let expected: Vec<&str> = if json_targets.contains(s)
+      && matches!(world.entries.get(s), Some(Entry::Src { .. }) | Some(Entry::Text { .. }))
+    {
+      o.label("target-requested-with-json-attribute");
+      match obs::served_media_type(world, s) {
+        Some(MediaType::Json) => vec!["module:json"],
+        _ => vec!["error:Expected a Json module"],
+      }
+    } else {
+      expected
     };
     if !expected.iter().any(|p| state.starts_with(p)) {
       o.violate(
